@@ -224,6 +224,17 @@ func (sf *schemafier) schemafy(attr *expr.AttributeExpr, noref ...bool) *openapi
 			return sf.schemafy(t.Attribute())
 		}
 		h := sf.hashAttribute(attr, fnv.New64())
+		if rt, ok := t.(*expr.ResultTypeExpr); ok {
+			// hashAttribute identifies a result type by its identifier and
+			// view only. The response body types computed for a result type
+			// keep the identifier but not the attributes mapped to headers
+			// or cookies: take the attributes into account so that such a
+			// body is not described with the schema of the complete type.
+			if o := expr.AsObject(rt); o != nil {
+				atts := &expr.AttributeExpr{Type: o, Validation: rt.Validation}
+				h = orderedHash(h, sf.hashAttribute(atts, fnv.New64()), fnv.New64())
+			}
+		}
 
 		var metaName string
 		if n, ok := t.Attribute().Meta["openapi:typename"]; ok {
